@@ -299,12 +299,16 @@ RangeImpl(lo, hi) == DropDeleted(RangeLevels(MinLevel, lo, hi, <<>>), 1, <<>>)
 (* The ordered-map oracles (independent of the layout)                     *)
 (***************************************************************************)
 LiveKeys == {k \in Keys : map[k] # NoVal}
-RECURSIVE SortSet(_)
-SortSet(S) == IF S = {} THEN <<>> ELSE LET m == CHOOSE x \in S : \A y \in S : x <= y IN <<m>> \o SortSet(S \ {m})
-MapPairs(lo, hi) == LET ks == SortSet({k \in LiveKeys : lo <= k /\ k <= hi}) IN [i \in 1..Len(ks) |-> <<ks[i], map[ks[i]]>>]
+MinKeyOf == CHOOSE k \in Keys : \A j \in Keys : k <= j
 MaxKey == CHOOSE k \in Keys : \A j \in Keys : k >= j
-MapLowerBound(q) == LET S == {k \in LiveKeys : k >= q} IN
-                    IF S = {} THEN <<>> ELSE LET m == CHOOSE x \in S : \A y \in S : x <= y IN <<m, map[m]>>
+\* the live pairs with lo <= key <= hi in key order, at most `limit` of them (Keys is an interval of integers)
+RECURSIVE PairsFrom(_,_,_,_)
+PairsFrom(k, hi, limit, acc) ==
+  IF k > hi \/ Len(acc) >= limit THEN acc
+  ELSE PairsFrom(k + 1, hi, limit, IF k \in Keys /\ map[k] # NoVal THEN Append(acc, <<k, map[k]>>) ELSE acc)
+MapPairsUpTo(lo, hi, limit) == PairsFrom(lo, hi, limit, <<>>)
+MapPairs(lo, hi) == PairsFrom(lo, hi, Cardinality(Keys) + 1, <<>>)
+MapLowerBound(q) == LET r == PairsFrom(q, MaxKey, 1, <<>>) IN IF r = <<>> THEN <<>> ELSE r[1]
 
 C05 == \A k \in Keys : /\ FindImpl(k) = map[k]
                        /\ CountImpl(k) = (IF map[k] = NoVal THEN 0 ELSE 1)
@@ -315,6 +319,9 @@ C06 == /\ \A from \in Keys : IterImpl(from) = MapPairs(from, MaxKey)
        /\ (EmptyImpl <=> LiveKeys = {})
 
 View == <<levels, used, idx, map>>
+\* bounded configurations keep the update counter in the fingerprint (hiding it would make the bound depend on the order
+\* in which parallel workers reach a layout)
+ViewBounded == <<levels, used, idx, map, ops>>
 \* the bound MaxLvl never silently disables a merge in the explored configuration
 NoTruncation == Len(levels[MinLevel]) >= BufMax => MergeTarget[1] <= MaxLvl
 
